@@ -147,3 +147,15 @@ impl PutToTargetPeersContext {
         }
     }
 }
+
+#[cfg(litep2p_verif)]
+impl PutToTargetPeersContext {
+    /// `(pending peers, successes, successes needed)` (verification hook).
+    pub fn verif_state(&self) -> (Vec<PeerId>, usize, usize) {
+        (
+            self.pending_peers.iter().copied().collect(),
+            self.n_succeeded,
+            self.peers_to_succeed,
+        )
+    }
+}
